@@ -7,8 +7,14 @@ import json, os, re, shutil, subprocess, sys, time
 
 SRC = os.environ.get("SEEDED_SRC", "/tmp/seedout")
 ROOT = "/verif"
+# the checks can be run from a scratch copy of /verif against a scratch worktree of /repo (EVAL_ROOT, EVAL_REPO) while /repo itself is busy
+EROOT = os.environ.get("EVAL_ROOT", ROOT)
+REPO = os.environ.get("EVAL_REPO", "/repo")
+PREFIX = os.environ.get("EVAL_PREFIX", "")
 EXTRA = {"C01-C": ["C07"], "C02-C": ["C16", "C10"], "C03-C": ["C16", "C10"], "C05-D": ["C16", "C10"], "C10-C": ["C16"], "C11-D": ["C16", "C10"], "C06-C": ["C17"], "C13-C": ["C17"], "C14-C": ["C17"],
          "C20-C": ["C17"], "C12-D": ["C17"], "C07-D": ["C17"], "C01-D": ["C17", "C07"], "C10-D": ["C17"], "C08-C": ["C18"], "C18-D": ["C08"], "C16-C": ["C17"], "C19-C": ["C02"], "C09-D": ["C03"], "C05-C": ["C11"],
+         "C02-E": ["C10"], "C02-F": ["C03", "C09"], "C06-E": ["C01", "C07"], "C06-F": ["C17"], "C07-E": ["C01"], "C07-F": ["C13"], "C08-E": ["C18", "C10", "C16"], "C08-F": ["C15"],
+         "C09-E": ["C02"], "C10-E": ["C08", "C16"], "C10-F": ["C02"], "C16-E": ["C17"], "C16-F": ["C18", "C05"], "C18-E": ["C10"], "C18-F": ["C02", "C04"], "C04-F": ["C08"],
          "C02-B": ["C16"], "C05-B": ["C16"], "C07-B": ["C17"], "C13-B": ["C17"], "C03-B": ["C10"], "C10-A": ["C03"], "C16-B": ["C05"], "C08-B": ["C03", "C04"], "C01-B": ["C06"], "C06-B": ["C01"]}
 
 def sh(cmd, **kw):
@@ -35,26 +41,26 @@ def main():
             demo = f"{SRC}/{d}/demo_{x}_test.go"
             if os.path.exists(patch) and os.path.exists(demo):
                 items.append((sid, m.group(1), x, patch, demo, ported, f"{SRC}/{d}/notes{x}.md"))
-    assert sh("git -C /repo status --short").stdout.strip() == "", "/repo is not clean"
+    assert sh(f"git -C {REPO} status --short").stdout.strip() == "", "repo is not clean"
     for sid, prop, x, patch, demo, ported, notes in items:
         t0 = time.time()
         conf = sh(f"{ROOT}/tools/seeded_confirm.sh {patch} {demo} {sid}").stdout.strip().splitlines()
         conf = conf[-1] if conf else "REJECTED no-output"
         results = {}
         if conf.startswith("CONFIRMED"):
-            r = sh(f"git -C /repo apply --3way {patch} && git -C /repo reset -q")
+            r = sh(f"git -C {REPO} apply --3way {patch} && git -C {REPO} reset -q")
             if r.returncode != 0:
                 conf = "REJECTED patch-does-not-apply-to-/repo"
             else:
                 try:
                     for chk in [prop] + EXTRA.get(sid, []):
-                        rr = sh(f"cd {ROOT} && ./run.sh {chk} quick")
+                        rr = sh(f"cd {EROOT} && {PREFIX} ./run.sh {chk} quick")
                         viol = [l for l in rr.stdout.splitlines() if l.startswith("VIOLATION")]
                         results[chk] = {"exit": rr.returncode, "violation_lines": len(viol), "first": (viol[0][:300] if viol else ""),
                                         "summary": (rr.stdout.strip().splitlines() or [""])[-1][:300]}
                 finally:
-                    sh("git -C /repo checkout HEAD -- . && git -C /repo clean -fdq")
-        assert sh("git -C /repo status --short").stdout.strip() == "", "/repo left dirty"
+                    sh(f"git -C {REPO} checkout HEAD -- . && git -C {REPO} clean -fdq")
+        assert sh(f"git -C {REPO} status --short").stdout.strip() == "", "repo left dirty"
         out = f"{ROOT}/seeded/{sid}"
         if conf.startswith("CONFIRMED"):
             os.makedirs(out, exist_ok=True)
